@@ -1171,6 +1171,11 @@ func (tc *typechecker) checkBuiltinCall(expr *ast.Call) []*typeInfo {
 			}
 			arg1 := expr.Args[1]
 			t := tc.checkExpr(arg1)
+			if t.Nil() {
+				// append(s, nil...) appends nothing.
+				t = tc.nilOf(slice.Type)
+				tc.compilation.typeInfos[arg1] = t
+			}
 			// Handle the special case:
 			//
 			//     append(t, s...)
@@ -1287,6 +1292,9 @@ func (tc *typechecker) checkBuiltinCall(expr *ast.Call) []*typeInfo {
 		}
 		re := tc.checkExpr(expr.Args[0])
 		im := tc.checkExpr(expr.Args[1])
+		if re.Nil() || im.Nil() {
+			panic(tc.errorf(expr, "use of untyped nil"))
+		}
 		if re.IsUntypedConstant() && im.IsUntypedConstant() {
 			reKind := re.Type.Kind()
 			imKind := im.Type.Kind()
@@ -1547,6 +1555,9 @@ func (tc *typechecker) checkBuiltinCall(expr *ast.Call) []*typeInfo {
 			panic(tc.errorf(expr, "too many arguments to %s: %s", ident.Name, expr))
 		}
 		t := tc.checkExpr(expr.Args[0])
+		if t.Nil() {
+			panic(tc.errorf(expr, "use of untyped nil"))
+		}
 		ti := &typeInfo{Type: float64Type}
 		if t.IsUntypedConstant() {
 			if !isNumeric(t.Type.Kind()) {
